@@ -107,6 +107,10 @@ func (p *makefileParser) handleTarget(
 ) error {
 	// Combine annotation lines into a YAML snippet.
 	annotationContent := strings.Join(annotationLines, "\n")
+	// A bare "# @grog" line directly above a goal has no annotation lines
+	if len(annotationLineNumbers) == 0 {
+		annotationLineNumbers = []int{0}
+	}
 	lastLineNum := annotationLineNumbers[len(annotationLineNumbers)-1]
 
 	var annotation grogAnnotation
@@ -132,6 +136,12 @@ func (p *makefileParser) handleTarget(
 		Inputs:       annotation.Inputs,
 		Outputs:      annotation.Outputs,
 		Tags:         annotation.Tags,
+		// The whole annotation block is the target configuration
+		ExcludeInputs:        annotation.ExcludeInputs,
+		Fingerprint:          annotation.Fingerprint,
+		EnvironmentVariables: annotation.EnvironmentVariables,
+		Timeout:              annotation.Timeout,
+		Platforms:            annotation.Platforms,
 	}
 
 	// Use the annotation's name as key if provided, otherwise use the target name.
